@@ -615,6 +615,10 @@ class Evaluator:
             if op in ("==", "!=", "<", ">", "<=", ">="):
                 return {"==": a == b, "!=": a != b, "<": a < b, ">": a > b, "<=": a <= b, ">=": a >= b}[op]
             return self.arith(op, a, b)
+        if isinstance(a, tuple) and isinstance(b, tuple) and len(a) == len(b) and op in ("==", "!=", "<", ">", "<=", ">=") \
+           and not (a and a[0] == "enum") and all(isinstance(x, (int, bool)) for x in a + b):
+            # std::tuple of integers: lexicographic, as the standard defines its relational operators
+            return {"==": a == b, "!=": a != b, "<": a < b, ">": a > b, "<=": a <= b, ">=": a >= b}[op]
         if hasattr(a, "arith") and op in ("+", "-"):
             return a.arith(op, b)
         if hasattr(a, "cmp_with") and op in ("==", "!=", "<", ">", "<=", ">="):
